@@ -105,6 +105,17 @@ func c07Gen(r *rand.Rand, tier string) []Case {
 				tip, cap = big.NewInt(0), big.NewInt(0)
 			}
 			c = append(c, fmt.Sprintf("efloor %s %d %d %s %s %s %s", mg, typ, gas, gp, tip, cap, base))
+			if r.Intn(2) == 0 && gas > 0 {
+				// two messages in one transaction: the second over-pays by what the first is short of (or one more / one less)
+				short := big.NewInt(int64(1 + r.Intn(5)))
+				gpA := new(big.Int).Sub(price, short)
+				if gpA.Sign() < 0 {
+					gpA = big.NewInt(0)
+				}
+				gpB := new(big.Int).Add(price, new(big.Int).Add(short, big.NewInt(int64(r.Intn(3)))))
+				c = append(c, fmt.Sprintf("efloor2 %s %s 0 %d %s 0 0 0 %d %s 0 0", mg, base, gas, gpA, gas, gpB))
+				c = append(c, fmt.Sprintf("efloor2 %s %s 0 %d %s 0 0 1 %d %s 0 0", mg, base, gas, gpB, gas, gpB))
+			}
 			b2 := pick(r, []*big.Int{base, new(big.Int).Add(cap, big.NewInt(1)), new(big.Int).Add(gp, big.NewInt(1)), cap, gp})
 			c = append(c, fmt.Sprintf("vfee %d %d %s %s %s %s", typ, gas, gp, tip, cap, b2))
 		}
@@ -360,6 +371,55 @@ func c07Exec(c Case) (outs []string, fails []Failure, tags []string) {
 				need := new(big.Int).Mul(mustBig(f[1]), new(big.Int).SetUint64(gas))
 				if err == nil && new(big.Int).Mul(mustBig(f[3]), e18).Cmp(need) < 0 {
 					fl("C07:cosmos-floor", fmt.Sprintf("fee %s accepted below minGasPrice×gas = %s/1e18", f[3], need))
+				}
+			case "efloor2":
+				// efloor2 minGPraw base  typ gas gp tip cap  typ gas gp tip cap — one transaction, two Ethereum messages
+				base := mustBig(f[2])
+				var msgs []sdk.Msg
+				var offered, needed []*big.Int
+				for m := 0; m < 2; m++ {
+					o := 3 + 5*m
+					typ := vmIdx(f[o])
+					var gas uint64
+					fmt.Sscan(f[o+1], &gas)
+					gp, tip, cap := mustBig(f[o+2]), mustBig(f[o+3]), mustBig(f[o+4])
+					to := common.BytesToAddress(testAddr(301))
+					args := evmtypes.EvmTxArgs{ChainID: big.NewInt(11235), Nonce: uint64(1 + m), To: &to, Amount: big.NewInt(0), GasLimit: gas}
+					price := gp
+					switch typ {
+					case 0:
+						args.GasPrice = gp
+					case 1:
+						args.GasPrice = gp
+						args.Accesses = &ethtypes.AccessList{}
+					default:
+						args.GasTipCap, args.GasFeeCap = tip, cap
+						price = new(big.Int).Add(tip, base)
+						if cap.Cmp(price) < 0 {
+							price = cap
+						}
+					}
+					msgs = append(msgs, evmtypes.NewTx(&args))
+					offered = append(offered, new(big.Int).Mul(new(big.Int).Mul(price, new(big.Int).SetUint64(gas)), new(big.Int).Exp(big.NewInt(10), big.NewInt(18), nil)))
+					needed = append(needed, new(big.Int).Mul(mustBig(f[1]), new(big.Int).SetUint64(gas)))
+				}
+				ctx, _ := nw.GetContext().CacheContext()
+				p := app.FeeMarketKeeper.GetParams(ctx)
+				p.MinGasPrice = sdk.NewDecFromBigIntWithPrec(mustBig(f[1]), 18)
+				p.BaseFee = sdk.NewIntFromBigInt(base)
+				_ = app.FeeMarketKeeper.SetParams(ctx, p)
+				dec := evmante.NewEthMinGasPriceDecorator(app.FeeMarketKeeper, app.EvmKeeper)
+				_, err := dec.AnteHandle(ctx.WithIsCheckTx(false), c07MsgTx{msgs}, false, func(ctx sdk.Context, _ sdk.Tx, _ bool) (sdk.Context, error) { return ctx, nil })
+				out = "accept"
+				tags = append(tags, "efloor-two-messages")
+				if err != nil {
+					out = "reject"
+				} else {
+					for m := range msgs {
+						if offered[m].Cmp(needed[m]) < 0 {
+							fl("C07:eth-floor:message-carried-by-another", fmt.Sprintf("a transaction of two Ethereum messages was accepted although message %d offers less than its gas limit × the minimum gas price %s/1e18", m, f[1]))
+						}
+					}
 				}
 			case "efloor", "vfee":
 				off := 0
